@@ -4,7 +4,9 @@
 use super::types::*;
 
 pub struct Witness {
-    pub signature: &'static str,
+    /// signature of the OPEN finding the case reproduces; `None` = regression case of a fixed
+    /// finding (any divergence is a violation)
+    pub signature: Option<&'static str>,
     pub case: Case,
 }
 
@@ -79,11 +81,12 @@ pub fn all() -> Vec<Witness> {
             Step::Io(inp, 1),
             Step::Cycle(10 * MS),
         ];
-        out.push(Witness { signature: "stale-binding", case: c });
+        out.push(Witness { signature: Some("stale-binding"), case: c });
     }
 
-    // 1: SINGLE variable initially TRUE: a fresh runtime seeds last_single = TRUE (no edge), a cold
-    // restart sets last_single = FALSE, so the event task fires once spuriously.
+    // 1 (regression, fixed by /repo 5436414): SINGLE variable initially TRUE: a fresh runtime seeds
+    // last_single = TRUE (no edge); before the fix a restart set last_single = FALSE and the event
+    // task fired once spuriously.
     {
         let mut c = base(true);
         c.globals.push(var("trig", Ty::S(ST_BOOL), Pol::U, Some(0), None, "VAR_GLOBAL"));
@@ -98,10 +101,11 @@ pub fn all() -> Vec<Witness> {
         p.task = Some(0);
         c.progs.push(p);
         c.history = vec![Step::Cycle(10 * MS), Step::Restart(Mode::Cold), Step::Cycle(10 * MS), Step::Cycle(10 * MS)];
-        out.push(Witness { signature: "single-init-true", case: c });
+        out.push(Witness { signature: None, case: c });
     }
 
-    // 2: %M image survives a cold restart: a marker-bound counter continues instead of restarting.
+    // 2 (regression, fixed by /repo d6c1b45): the %M image survived a cold restart: a marker-bound
+    // counter continued instead of restarting.
     {
         let mut c = base(true);
         c.globals.push(var(
@@ -120,7 +124,7 @@ pub fn all() -> Vec<Witness> {
             Step::Restart(Mode::Cold),
             Step::Cycle(10 * MS),
         ];
-        out.push(Witness { signature: "images-kept", case: c });
+        out.push(Witness { signature: None, case: c });
     }
 
     // 3: power cycle: a program-level RETAIN variable survives a warm restart but not save + new
@@ -145,7 +149,7 @@ pub fn all() -> Vec<Witness> {
             Step::Power(None),
             Step::Cycle(10 * MS),
         ];
-        out.push(Witness { signature: "power-program-retain", case: c });
+        out.push(Witness { signature: Some("power-program-retain"), case: c });
     }
 
     // 4: FB members: RETAIN inside a program-level FB instance (and RETAIN on the instance
@@ -177,7 +181,7 @@ pub fn all() -> Vec<Witness> {
             vec![call(l("rfb")), call(l("ufb")), call(g("gfb"))],
         ));
         c.history = vec![Step::Cycle(10 * MS), Step::Cycle(10 * MS), Step::Restart(Mode::Warm), Step::Cycle(10 * MS)];
-        out.push(Witness { signature: "fb-member-retain", case: c });
+        out.push(Witness { signature: Some("fb-member-retain"), case: c });
     }
 
     // 5: VAR_CONFIG initial value is applied by the build only: any restart re-initialises the
@@ -193,7 +197,27 @@ pub fn all() -> Vec<Witness> {
         ));
         c.cfg_inits.push(CfgInit { tgt: Tgt::var(Scope::P("P0".into()), "w"), ty: Ty::S(ST_INT), lit: 2 });
         c.history = vec![Step::Cycle(10 * MS), Step::Restart(Mode::Cold), Step::Cycle(10 * MS)];
-        out.push(Witness { signature: "config-init-lost", case: c });
+        out.push(Witness { signature: Some("config-init-lost"), case: c });
+    }
+
+    // 6: the resource loop's restart step (`restart(mode)` then `load_retain_store()`, no save in
+    // between; `TestHarness::restart_with_retain`): a warm restart rolls RETAIN globals back to the
+    // last saved snapshot.
+    {
+        let mut c = base(true);
+        c.globals.push(var("gr", Ty::S(ST_INT), Pol::R, None, None, "VAR_GLOBAL"));
+        c.progs.push(prog("P0", "Prog0", vec![], vec![0], vec![Stmt::S(SStmt::Inc(g("gr"), 1, ST_INT))]));
+        c.history = vec![
+            Step::Store(false),
+            Step::Cycle(10 * MS),
+            Step::Save,
+            Step::Cycle(10 * MS),
+            Step::Cycle(10 * MS),
+            Step::Cycle(10 * MS),
+            Step::Rwr(Mode::Warm),
+            Step::Cycle(10 * MS),
+        ];
+        out.push(Witness { signature: Some("warm-rollback"), case: c });
     }
 
     out
